@@ -809,9 +809,7 @@ func c15IceCases(r *vh.Run, pionOK bool) []c15IceCase {
 	out = append(out, c15IceCase{"unreachable-stun", []string{"stun:192.0.2.77:3478"}, "refuse"})
 	if pionOK {
 		out = append(out, c15IceCase{"no-ice", nil, "live"})
-		if r.Thorough() {
-			out = append(out, c15IceCase{"no-ice", nil, "mute"}) // waits DataChannelTimeout (10 s)
-		}
+		out = append(out, c15IceCase{"no-ice", nil, "mute"}) // waits DataChannelTimeout (10 s)
 	}
 	return out
 }
@@ -840,6 +838,18 @@ func c15EnvOf(c c15IceCase) string {
 	return "brokerFail"
 }
 
+// c15Render renders every event as text, like the client binary's ptEventLogger does: an event that cannot
+// be rendered (nil error inside a failure event) panics in the collecting goroutine and kills the client.
+type c15Render struct{}
+
+func (c15Render) OnNewSnowflakeEvent(e event.SnowflakeEvent) { _ = e.String() }
+
+func c15Renderer() event.SnowflakeEventReceiver {
+	d := event.NewSnowflakeEventDispatcher()
+	d.AddSnowflakeEventListener(c15Render{})
+	return d
+}
+
 func c15RunIce(r *vh.Run, c c15IceCase, viaCollect bool) {
 	env := c15EnvOf(c)
 	var servers []webrtc.ICEServer
@@ -853,7 +863,7 @@ func c15RunIce(r *vh.Run, c c15IceCase, viaCollect bool) {
 	var ch chan string
 	var peers *Peers
 	if viaCollect {
-		peers, _ = NewPeers(NewWebRTCDialer(broker, servers, 1))
+		peers, _ = NewPeers(NewWebRTCDialerWithEvents(broker, servers, 1, c15Renderer()))
 		ch = c15Async(func() string {
 			pe, err := peers.Collect()
 			if err != nil {
@@ -865,7 +875,7 @@ func c15RunIce(r *vh.Run, c c15IceCase, viaCollect bool) {
 	} else {
 		cfg := &webrtc.Configuration{ICEServers: servers}
 		ch = c15Async(func() string {
-			pe, err := NewWebRTCPeerWithEvents(cfg, broker, nil)
+			pe, err := NewWebRTCPeerWithEvents(cfg, broker, c15Renderer())
 			if err != nil {
 				if pe != nil {
 					return "err-with-peer"
